@@ -547,11 +547,12 @@ class BaseCurve(Intface_BaseCurve):
         newweights = tuple(np.dot(transmat, weights))
         newpoints = np.dot(transmat, points)
         roots = heavy.find_roots(newvector, newweights)
-        if roots:
+        if roots or not all(newweights):
             raise ValueError(f"Zero division at nodes {roots}")
+        newpoints = [pt / wi for pt, wi in zip(newpoints, newweights)]
         self.__knotvector = newknotvector
         self.__weights = newweights
-        self.ctrlpoints = [pt / wi for pt, wi in zip(newpoints, newweights)]
+        self.ctrlpoints = newpoints
 
     def apply(self, newknotvector: KnotVector, matrix: Tuple[Tuple[float]]):
         """Applies the linear transformation for every control point
